@@ -55,6 +55,17 @@ def run(tier, seed):
             i3 = dict(inp, h=s3)
             R.guard("associative", i3, lambda: (rat_eq(*(nd((f + g) + h) + nd(f + (g + h)))) and rat_eq(*(nd((f * g) * h) + nd(f * (g * h)))), "assoc"))
             R.guard("distributive", i3, lambda: (rat_eq(*(nd(f * (g + h)) + nd(f * g + f * h))), "f*(g+h)"))
+    # small integer coefficient cube (covers coincidences the generic symbols cannot: equal denominators, coefficients with
+    # colliding hashes such as -1 and -2, zeros)
+    nd = lambda h: (pd_of(h.numpoly), pd_of(h.denpoly))
+    for a, c in itertools.product(range(-3, 4), repeat=2):
+        for b0, b1 in ((1, 0), (2, -1)):
+            f, g = ZFilter([1], [1, a]), ZFilter([b0, b1], [1, c])
+            n1, d1, n2, d2 = {0: 1}, {0: 1, 1: a}, {0: b0, 1: b1}, {0: 1, 1: c}
+            inp = {"f": "1/(1%+dz^-1)" % a, "g": "(%d%+dz^-1)/(1%+dz^-1)" % (b0, b1, c)}
+            R.guard("add-is-sum-of-rational-functions", inp, lambda: (rat_eq(*nd(f + g), pd_add(pd_mul(n1, d2), pd_mul(n2, d1)), pd_mul(d1, d2)), "f+g = %r / %r" % nd(f + g)))
+            R.guard("sub", inp, lambda: (rat_eq(*nd(g - f), pd_add(pd_mul(n2, d1), pd_neg(pd_mul(n1, d2))), pd_mul(d1, d2)), "g-f = %r / %r" % nd(g - f)))
+            R.guard("parallel-polys-are-the-sum", inp, lambda: (rat_eq(pd_of(ParallelFilter(f, g).numpoly), pd_of(ParallelFilter(f, g).denpoly), pd_add(pd_mul(n1, d2), pd_mul(n2, d1)), pd_mul(d1, d2)), "ParallelFilter num/den"))
     # substitution f(g): g replaces z.  Checked by evaluating the rational functions at a symbolic point t
     t = Sym.var("t")
 
